@@ -3,7 +3,7 @@
    priority stack (AdfStack.v) and the sub-node table (AdfChildTab.v).  They complement Properties_C02.v (laws of
    the ideal tree).  Only statements closed by [exact]; Print Assumptions under each; Examples for non-vacuity. *)
 From Coq Require Import ZArith List Bool.
-From CgnsV Require Import AdfCache AdfCacheProofs AdfStack AdfStackProofs AdfChildTab AdfChildTabProofs.
+From CgnsV Require Import AdfCache AdfCacheProofs AdfStack AdfStackProofs AdfChildTab AdfChildTabProofs AdfMove AdfMoveProofs.
 Import ListNotations.
 Local Open Scope Z_scope.
 
@@ -122,6 +122,37 @@ Theorem C02_children_delete_keeps_order : forall l child,
                  ideal_cstep l (CDel child) = a ++ b).
 Proof. exact ideal_del_keeps_order. Qed.
 Print Assumptions C02_children_delete_keeps_order.
+
+(* ---- ADF_Move_Child over the two sub-node tables it touches (AdfMove.v): the call is atomic -- whatever it returns
+        other than NO_ERROR, the parent's and the new parent's table are what they were; in particular a parent that is
+        not the child's parent (even one that has a child of the same name) is refused before anything is written *)
+Theorem C02_move_child_atomic : forall src dst nm hdr child r src' dst',
+  WFc src -> WFc dst ->
+  move_child MvCur src dst nm hdr child = (r, src', dst') -> r <> MOk -> src' = src /\ dst' = dst.
+Proof. exact move_cur_error_changes_nothing. Qed.
+Print Assumptions C02_move_child_atomic.
+
+(* a successful call removes the child's entry from the parent's ordered list and appends it to the new parent's,
+   which had no child of that name *)
+Theorem C02_move_child_ok_spec : forall v src dst nm hdr child src' dst',
+  WFc src -> WFc dst -> cap dst < FLOAT_EXACT ->
+  move_child v src dst nm hdr child = (MOk, src', dst') ->
+  WFc src' /\ WFc dst' /\
+  children src' = remove_first (children src) child /\
+  children dst' = children dst ++ [(hdr, child)] /\
+  has_name (children dst) nm = false.
+Proof. exact move_ok_spec. Qed.
+Print Assumptions C02_move_child_ok_spec.
+
+(* before /repo 730e850 the name alone identified the child: the witness (a wrong parent with a child of the same
+   name) adds the node to the new parent and then fails; the current code refuses it untouched *)
+Theorem C02_move_child_old_refuted :
+  WFc w_src /\ WFc w_dst /\
+  (exists e d', move_child MvOld w_src w_dst w_name w_hdr w_child = (MErr e, w_src, d') /\
+                children d' = [(w_hdr, w_child)]) /\
+  move_child MvCur w_src w_dst w_name w_hdr w_child = (MErr CHILD_NOT_OF_GIVEN_PARENT, w_src, w_dst).
+Proof. exact move_old_not_atomic_refuted. Qed.
+Print Assumptions C02_move_child_old_refuted.
 
 Example C02_children_nonvacuous :
   option_map (fun t => (cap t, num t, map snd (children t)))
